@@ -37,6 +37,22 @@ def correspondence(ck):
         if s == 0 or i_max - 1 < 0 or i_min > n - 1:
             continue   # early-return branches are covered by the direct oracle
         terms.append("Eval vm_compute in (timeshift_const FloatA %s %s %d)." % ("[" + "; ".join(fhex(v) for v in data) + "]", fhex(s), h)); exp.append(("shift", h, s, impl))
+    # time-varying path (clip, zero padding, sliding window, einsum) on short records with per-sample shifts
+    for _ in range(6 if ck.tier == "quick" else 40):
+        n = ck.rng.choice([3, 6, 17, 40]); order = ck.rng.choice([1, 3, 5, 7, 31]); h = (order + 1) // 2
+        kind = ck.rng.choice(["small", "mixed", "far"])
+        if kind == "small":
+            sh = [ck.rng.uniform(-2, 2) for _ in range(n)]
+        elif kind == "mixed":
+            sh = [ck.rng.choice([0.0, 1.0, -2.0, 0.5, ck.rng.uniform(-3, 3)]) for _ in range(n)]
+        else:
+            sh = [ck.rng.uniform(-n - h - 4, n + h + 4) for _ in range(n)]
+        if all(v == 0 for v in sh):
+            sh[0] = 0.25
+        data = np.array([ck.rng.uniform(-1, 1) for _ in range(n)])
+        impl = np.asarray(timeshift(data, np.array(sh), order=order))
+        lst = lambda a: "[" + "; ".join(fhex(float(v)) for v in a) + "]"
+        terms.append("Eval vm_compute in (timeshift_var FloatA %s %s %d)." % (lst(data), lst(sh), h)); exp.append(("vshift", h, kind, impl))
     body = "From Coq Require Import ZArith List PrimFloat.\nFrom SK Require Import Arith Lagrange.\nImport ListNotations.\nOpen Scope float_scope.\n" + "\n".join(terms) + "\n"
     res = common.run_case_files({"lag_%d" % __import__("os").getpid(): body})
     rc, out = list(res.values())[0]
@@ -53,7 +69,7 @@ def correspondence(ck):
             else:
                 if len(m) != len(impl) or np.max(np.abs(m - impl)) > 1e-11 * (1 + np.max(np.abs(impl))):
                     bad.append("timeshift halfp=%d s=%r: implementation and model differ by %g" % (h, d, float(np.max(np.abs(m - impl))) if len(m) == len(impl) else -1))
-    ck.obligation("correspondence:lagrange_taps == Lagrange.taps at binary64 (bit-exact); constant-shift timeshift == timeshift_const (1e-11)", not bad, "; ".join(bad[:3]))
+    ck.obligation("correspondence:lagrange_taps == Lagrange.taps at binary64 (bit-exact); constant-shift timeshift == timeshift_const, time-varying timeshift == timeshift_var (1e-11)", not bad, "; ".join(bad[:3]))
     ck.cov["correspondence_cases"] = len(exp)
     # exact rationals: model at QA vs the textbook product, 2h+1 fractions per order (a degree-(2h-1) identity is fixed by 2h points)
     hs2 = [1, 2, 3, 5, 8, 16] if ck.tier == "quick" else [1, 2, 3, 4, 5, 8, 12, 16, 20]
